@@ -218,6 +218,7 @@ PROPS['C01'] = dict(
 
 PENDING = 'not claimed yet in this build session: deciding units are not built (see DESIGN section 10)'
 PROPS['C13'] = dict(
+    census='filelock',
     bounded_quick=[('lock', 'that NO other code gives the lock away while a handle is alive (a Drop impl, an explicit unlock, a second file handle) is a frame condition over the whole crate, outside any function contract; cex/lock.rs probes the lock from a second process (python3 flock) along a scripted history of handle clones, transactions and drops')],
     level='other',
     units=['open'],
